@@ -262,3 +262,15 @@ Proofs/Typed.vos Proofs/Typed.vok Proofs/Typed.required_vos: Proofs/Typed.v Mode
 Properties/C04.vo Properties/C04.glob Properties/C04.v.beautified Properties/C04.required_vo: Properties/C04.v Model.vo Spec/FirstViolation.vo Mon/C04.vo Proofs/TypedMon.vo Proofs/Typed.vo Proofs/RulesBasic.vo Spec/ResolverTests.vo
 Properties/C04.vio: Properties/C04.v Model.vio Spec/FirstViolation.vio Mon/C04.vio Proofs/TypedMon.vio Proofs/Typed.vio Proofs/RulesBasic.vio Spec/ResolverTests.vio
 Properties/C04.vos Properties/C04.vok Properties/C04.required_vos: Properties/C04.v Model.vos Spec/FirstViolation.vos Mon/C04.vos Proofs/TypedMon.vos Proofs/Typed.vos Proofs/RulesBasic.vos Spec/ResolverTests.vos
+Proofs/RetOnce.vo Proofs/RetOnce.glob Proofs/RetOnce.v.beautified Proofs/RetOnce.required_vo: Proofs/RetOnce.v Model.vo Spec/Stack.vo Spec/Exec.vo Mon/Control.vo Proofs/Trace.vo Proofs/InvNames.vo Proofs/InvLabels.vo Proofs/Resolve.vo Proofs/ExecBasic.vo Proofs/FlowBasic.vo Proofs/FlowSem.vo Proofs/FlowExpr.vo Proofs/FlowFrag.vo Proofs/FlowSim.vo Proofs/InvRet.vo
+Proofs/RetOnce.vio: Proofs/RetOnce.v Model.vio Spec/Stack.vio Spec/Exec.vio Mon/Control.vio Proofs/Trace.vio Proofs/InvNames.vio Proofs/InvLabels.vio Proofs/Resolve.vio Proofs/ExecBasic.vio Proofs/FlowBasic.vio Proofs/FlowSem.vio Proofs/FlowExpr.vio Proofs/FlowFrag.vio Proofs/FlowSim.vio Proofs/InvRet.vio
+Proofs/RetOnce.vos Proofs/RetOnce.vok Proofs/RetOnce.required_vos: Proofs/RetOnce.v Model.vos Spec/Stack.vos Spec/Exec.vos Mon/Control.vos Proofs/Trace.vos Proofs/InvNames.vos Proofs/InvLabels.vos Proofs/Resolve.vos Proofs/ExecBasic.vos Proofs/FlowBasic.vos Proofs/FlowSem.vos Proofs/FlowExpr.vos Proofs/FlowFrag.vos Proofs/FlowSim.vos Proofs/InvRet.vos
+Properties/C11b.vo Properties/C11b.glob Properties/C11b.v.beautified Properties/C11b.required_vo: Properties/C11b.v Model.vo Spec/Stack.vo Mon/Control.vo Proofs/ExecBasic.vo Proofs/RetOnce.vo
+Properties/C11b.vio: Properties/C11b.v Model.vio Spec/Stack.vio Mon/Control.vio Proofs/ExecBasic.vio Proofs/RetOnce.vio
+Properties/C11b.vos Properties/C11b.vok Properties/C11b.required_vos: Properties/C11b.v Model.vos Spec/Stack.vos Mon/Control.vos Proofs/ExecBasic.vos Proofs/RetOnce.vos
+Proofs/ValueTables.vo Proofs/ValueTables.glob Proofs/ValueTables.v.beautified Proofs/ValueTables.required_vo: Proofs/ValueTables.v Model.vo Spec/Stack.vo Spec/Tables.vo Spec/Exec.vo Mon/C12.vo Mon/C18.vo Mon/C18b.vo Proofs/Trace.vo Proofs/InvNames.vo Proofs/MonC12.vo Proofs/InvLabels.vo Proofs/Resolve.vo Proofs/ExecBasic.vo Proofs/FlowBasic.vo Proofs/FlowSem.vo Proofs/FlowExpr.vo Proofs/FlowSim.vo Proofs/Fuel.vo
+Proofs/ValueTables.vio: Proofs/ValueTables.v Model.vio Spec/Stack.vio Spec/Tables.vio Spec/Exec.vio Mon/C12.vio Mon/C18.vio Mon/C18b.vio Proofs/Trace.vio Proofs/InvNames.vio Proofs/MonC12.vio Proofs/InvLabels.vio Proofs/Resolve.vio Proofs/ExecBasic.vio Proofs/FlowBasic.vio Proofs/FlowSem.vio Proofs/FlowExpr.vio Proofs/FlowSim.vio Proofs/Fuel.vio
+Proofs/ValueTables.vos Proofs/ValueTables.vok Proofs/ValueTables.required_vos: Proofs/ValueTables.v Model.vos Spec/Stack.vos Spec/Tables.vos Spec/Exec.vos Mon/C12.vos Mon/C18.vos Mon/C18b.vos Proofs/Trace.vos Proofs/InvNames.vos Proofs/MonC12.vos Proofs/InvLabels.vos Proofs/Resolve.vos Proofs/ExecBasic.vos Proofs/FlowBasic.vos Proofs/FlowSem.vos Proofs/FlowExpr.vos Proofs/FlowSim.vos Proofs/Fuel.vos
+Properties/C18b.vo Properties/C18b.glob Properties/C18b.v.beautified Properties/C18b.required_vo: Properties/C18b.v Model.vo Spec/Stack.vo Spec/Tables.vo Mon/C12.vo Mon/C18.vo Mon/C18b.vo Proofs/ValueTables.vo
+Properties/C18b.vio: Properties/C18b.v Model.vio Spec/Stack.vio Spec/Tables.vio Mon/C12.vio Mon/C18.vio Mon/C18b.vio Proofs/ValueTables.vio
+Properties/C18b.vos Properties/C18b.vok Properties/C18b.required_vos: Properties/C18b.v Model.vos Spec/Stack.vos Spec/Tables.vos Mon/C12.vos Mon/C18.vos Mon/C18b.vos Proofs/ValueTables.vos
